@@ -474,7 +474,7 @@ Fixpoint drain_meta (fuel : nat) (s : mst) (avail : list N) : mres :=
         match ev_meta (evm_fuel avail) s avail with
         | MRet s1 a1 es1 =>
           if (length a1 <? length avail)%nat then mapp es1 (drain_meta f s1 a1)
-          else MRet s1 a1 es1     (* no progress on the socket: not reachable *)
+          else MOut               (* no progress on the socket: not reachable *)
         | x => x
         end
       end
